@@ -236,4 +236,107 @@ theorem checkRanks_sound [BEq S] [LawfulBEq S] (o : DOps S) (asc : Bool) (m : Li
   obtain ⟨⟨⟨h1, h2⟩, h3⟩, h4⟩ := h
   exact ⟨_, ⟨h1, h2⟩, h3, h4⟩
 
+
+/-! ### rankings when "best-first" is not defined
+
+  With an unordered score (NaN) among the scores of a modality the comparison is not a
+  strict weak order on them: "best-first" has no meaning, and a comparison sort may
+  place every entry — also the ordered ones — anywhere.  The property then only
+  promises a rank map without panic.  `strict = true` (no unordered score in the map)
+  is the full specification above; `strict = false` demands a bijection onto
+  `0 … n−1` only. -/
+
+/-- `σ` lists the entries of `m` exactly once; best-first where that is defined -/
+def IsRankingW (o : DOps S) (ascending strict : Bool) (m σ : List (Id × S)) : Prop :=
+  σ.Perm m ∧ (strict = true → BestFirst o ascending σ)
+
+theorem isRankingW_true (o : DOps S) (asc : Bool) (m σ : List (Id × S)) :
+    IsRankingW o asc true m σ ↔ IsRanking o asc m σ := by
+  simp [IsRankingW, IsRanking]
+
+/-- reciprocal-rank fusion specification, per modality strict or not -/
+def RRFSpecW (o : DOps S) (K : S) (v t out : List (Id × S)) (strictV strictT : Bool) : Prop :=
+  ∃ σv σt, IsRankingW o true strictV v σv ∧ IsRankingW o false strictT t σt ∧
+    ∀ id, out.lookup id = rrfValue o K σv σt id
+
+theorem rrfSpecW_true (o : DOps S) (K : S) (v t out : List (Id × S)) :
+    RRFSpecW o K v t out true true ↔ RRFSpec o K v t out := by
+  simp [RRFSpecW, RRFSpec, isRankingW_true]
+
+theorem lookup_none_of_not_key {β : Type} (id : Id) :
+    ∀ (m : List (Id × β)), id ∉ m.map (·.1) → m.lookup id = none
+  | [], _ => rfl
+  | (k, x) :: m, hn => by
+    simp only [List.map_cons, List.mem_cons, not_or] at hn
+    have hne : (id == k) = false := by simpa using hn.1
+    simp only [List.lookup, hne]
+    exact lookup_none_of_not_key id m hn.2
+
+theorem rankIn_none_of_not_key (id : Id) :
+    ∀ (σ : List (Id × S)), id ∉ σ.map (·.1) → rankIn id σ = none
+  | [], _ => rfl
+  | p :: σ, hn => by
+    simp only [List.map_cons, List.mem_cons, not_or] at hn
+    have hne : (p.1 == id) = false := by
+      simp only [beq_eq_false_iff_ne, ne_eq]
+      exact fun h => hn.1 h.symm
+    simp only [rankIn, hne, rankIn_none_of_not_key id σ hn.2]
+    rfl
+
+/-- executable check of `RRFSpecW` for given witnesses (found by an untrusted search) -/
+def verifyRRFW [BEq S] (o : DOps S) (K : S) (v t out σv σt : List (Id × S))
+    (strictV strictT : Bool) : Bool :=
+  σv.isPerm v && (!strictV || bestFirstB o true σv) &&
+  σt.isPerm t && (!strictT || bestFirstB o false σt) &&
+  (out.map (·.1) ++ v.map (·.1) ++ t.map (·.1)).all fun id =>
+    out.lookup id == rrfValue o K σv σt id
+
+theorem verifyRRFW_sound [BEq S] [LawfulBEq S] (o : DOps S) (K : S)
+    (v t out σv σt : List (Id × S)) (strictV strictT : Bool)
+    (h : verifyRRFW o K v t out σv σt strictV strictT = true) :
+    RRFSpecW o K v t out strictV strictT := by
+  simp only [verifyRRFW, Bool.and_eq_true, Bool.or_eq_true, Bool.not_eq_true', List.all_eq_true,
+    List.isPerm_iff, bestFirstB_iff, beq_iff_eq] at h
+  obtain ⟨⟨⟨⟨h1, h2⟩, h3⟩, h4⟩, h5⟩ := h
+  refine ⟨σv, σt, ⟨h1, fun hs => ?_⟩, ⟨h3, fun hs => ?_⟩, ?_⟩
+  · rcases h2 with h2 | h2
+    · rw [hs] at h2; cases h2
+    · exact h2
+  · rcases h4 with h4 | h4
+    · rw [hs] at h4; cases h4
+    · exact h4
+  · intro id
+    by_cases hm : id ∈ out.map (·.1) ++ v.map (·.1) ++ t.map (·.1)
+    · exact h5 id hm
+    · simp only [List.mem_append, not_or] at hm
+      obtain ⟨⟨ho, hv⟩, ht⟩ := hm
+      have hv' : id ∉ σv.map (·.1) := fun hx => hv ((h1.map (·.1)).subset hx)
+      have ht' : id ∉ σt.map (·.1) := fun hx => ht ((h3.map (·.1)).subset hx)
+      rw [lookup_none_of_not_key id out ho]
+      simp [rrfValue, rankIn_none_of_not_key id σv hv', rankIn_none_of_not_key id σt ht']
+
+/-- checker for an answer of `scoreMapToRanks`: always a bijection onto `0 … n−1`
+    (every id once, every rank once), best-first when `strict` -/
+def checkRanksW [BEq S] (o : DOps S) (ascending strict : Bool) (m : List (Id × S))
+    (ranks : List (Id × Nat)) : Bool :=
+  let σ := ranksToOrder m ranks
+  σ.isPerm m && (!strict || bestFirstB o ascending σ) && ranks.length == m.length &&
+  ranks.all fun p => rankIn p.1 σ == some p.2
+
+def RanksSpecW (o : DOps S) (ascending strict : Bool) (m : List (Id × S))
+    (ranks : List (Id × Nat)) : Prop :=
+  ∃ σ, IsRankingW o ascending strict m σ ∧ ranks.length = m.length ∧
+    ∀ p ∈ ranks, rankIn p.1 σ = some p.2
+
+theorem checkRanksW_sound [BEq S] [LawfulBEq S] (o : DOps S) (asc strict : Bool)
+    (m : List (Id × S)) (ranks : List (Id × Nat)) (h : checkRanksW o asc strict m ranks = true) :
+    RanksSpecW o asc strict m ranks := by
+  simp only [checkRanksW, Bool.and_eq_true, Bool.or_eq_true, Bool.not_eq_true', List.all_eq_true,
+    List.isPerm_iff, bestFirstB_iff, beq_iff_eq] at h
+  obtain ⟨⟨⟨h1, h2⟩, h3⟩, h4⟩ := h
+  refine ⟨_, ⟨h1, fun hs => ?_⟩, h3, h4⟩
+  rcases h2 with h2 | h2
+  · rw [hs] at h2; cases h2
+  · exact h2
+
 end Comet
